@@ -149,6 +149,22 @@ def check(tier, seed):
                 rep.violation("c15_diag_owner_%d" % nown, "# the diagnostics of a failing compile depend on / leak into earlier compilations\n# target %r after %r\n# alone: %r\n# now:   %r\n# earlier programs whose message count changed: %s\n# outcome %s\n# stderr: %s"
                               % (tgt, [p[:40] for p in pre], bkey, key, grew, io["kind"], r["err"][-600:].replace("\n", "\n# ")), True)
             h.cleanup(r)
+    # (4) a machine whose global initialisation FAILED: every later call must behave like the same call on a fresh machine (which
+    # runs the initialisation again and fails again) — not return values computed from globals that were never built
+    GINIT = "var z = 0; var a = 5; var b = 10 / z; var c = 7;\nfunc get(x : int) -> int { a + c + x }\nfunc main() -> int { get(1) }\n"
+    r = h.run(src=GINIT, trace=False, calls="get:1;get:1;get:2")
+    ex = [l for l in r["lines"] if l.startswith("exec ")]
+    fresh = h.run(src=GINIT, trace=False, calls="get:2")
+    fx = [l for l in fresh["lines"] if l.startswith("exec ")]
+    stats["failed_init_calls"] = len(ex)
+    if len(ex) == 3 and fx and " ret=1 " in ex[0] and " ret=1 " in fx[0]:
+        later_ok = [l for l in ex[1:] if " ret=0 " in l]
+        if later_ok:
+            rep.finding("failed-global-init-leaves-machine-initialised", "# first nev_execute fails inside the global initialisation (10 / z); later calls on the same machine\n# %s\n# the same call on a fresh machine\n# %s\n%s" % ("\n# ".join(ex), fx[0], GINIT))
+    elif viol < 3:
+        viol += 1
+        rep.violation("c15_failed_init_shape", "# the failing-initialisation history did not run as expected\n# %r\n# %r\n%s" % (ex, fx, r["err"][-400:]), False)
+    h.cleanup(r); h.cleanup(fresh)
     h.close()
     stats["diagnostic_owner_cases"] = nown
     rep.cov.update(trusted_base=["Lean 4.33 kernel", "axioms: propext, Classical.choice, Quot.sound", "h_vm.c (call lists, pre-compiles) + comparator", "gcc/ASan"],
